@@ -9,6 +9,7 @@ CONSTANTS
     TickSteps = {1}
     NProofs = 3
     TsChoices = {1, 3, 5}
+    FarChoices = {"near"}
     NonceIds = {1, 2, 3}
     ShareNonces = TRUE
     KidChoices = {"k1"}
